@@ -1,5 +1,6 @@
 import CallbagModel.Inv.XViols
 import CallbagModel.Inv.Combine
+import CallbagModel.Inv.ComposeInst
 import CallbagModel.Inv.ConcatFull
 import CallbagModel.Inv.FlattenFull
 import CallbagModel.Inv.ForEachFull
